@@ -901,3 +901,33 @@ def gen_unregister_history(rng, hid):
         steps.append({"t": end + 50, "d": 0, "calls": [{"op": "shutdown", "ch": "s2"}]})
     return {"id": hid, "t0": T0, "daemons": [{"seed": seed, "ifaces": IFCFGS[cfg]}], "link": "none", "steps": steps,
             "meta": {"family": "unreg", "cfg": cfg}}
+
+
+# --------------------------------------------------------------------------- monitor verdicts
+
+def parse_mon(mon):
+    """'FAIL fail=31,32 known=44 modelself' -> ([31, 32], [44])"""
+    fails, knowns = [], []
+    for tok in mon.split(" "):
+        if tok.startswith("fail="):
+            fails = [int(x) for x in tok[5:].split(",") if x.isdigit()]
+        elif tok.startswith("known="):
+            knowns = [int(x) for x in tok[6:].split(",") if x.isdigit()]
+    return fails, knowns
+
+
+def known_by_codes(mon, table):
+    """finding id if the monitor rejected only for codes of listed classes"""
+    fails, knowns = parse_mon(mon)
+    if fails or not knowns:
+        return None
+    ids = []
+    for k in knowns:
+        if k not in table:
+            return None
+        ids.append(table[k])
+    return ids[0]
+
+
+def has_sends(obs):
+    return " S:" in obs
